@@ -10,6 +10,7 @@ import (
 	"sort"
 	"strings"
 	"sync"
+	"sync/atomic"
 	"testing"
 	"time"
 
@@ -30,6 +31,10 @@ type Sub struct {
 	PauseAms   int            `json:"pause_a_ms"`
 	PauseEvery int            `json:"pause_every"`
 	DataSeed   uint64         `json:"data_seed"`
+	// ZeroW > 0: after every ZeroW-th chunk the writers also issue a zero-length
+	// write (alternately an empty non-nil slice and a nil one): it must not show
+	// in the stream
+	ZeroW int `json:"zero_w,omitempty"`
 }
 
 // forceWrap is set by the C14 units of the plan: every connection then starts
@@ -60,13 +65,15 @@ type dirResult struct {
 // transfer runs one direction: w writes want in chunks then shuts down its
 // write side; r reads with pacing and checks the prefix property after every
 // read.
-func transfer(name string, w, r *netsim.Sock, want []byte, chunk int, pauseMs, pauseEvery int, deadline time.Duration, res *dirResult, wg *sync.WaitGroup) {
+func transfer(name string, w, r *netsim.Sock, want []byte, chunk int, pauseMs, pauseEvery int, deadline time.Duration, res *dirResult, wg *sync.WaitGroup, zeroW int, aborted *atomic.Bool) {
 	var offered int64 // bytes handed to Write calls that have begun
 	var mu sync.Mutex
+	var shutCalled atomic.Bool
 	wg.Add(2)
 	go func() {
 		defer wg.Done()
 		rem := want
+		nw := 0
 		for len(rem) > 0 {
 			k := chunk
 			if k > len(rem) {
@@ -89,7 +96,15 @@ func transfer(name string, w, r *netsim.Sock, want []byte, chunk int, pauseMs, p
 				return
 			}
 			rem = rem[k:]
+			if nw++; zeroW > 0 && nw%zeroW == 0 {
+				empty := []byte{}
+				if (nw/zeroW)%2 == 0 {
+					empty = nil
+				}
+				w.EP.Write(tcpip.SlicePayload(empty), tcpip.WriteOptions{})
+			}
 		}
+		shutCalled.Store(true)
 		if err := w.EP.Shutdown(tcpip.ShutdownWrite); err != nil {
 			res.werr = "shutdown: " + err.String()
 		}
@@ -106,6 +121,9 @@ func transfer(name string, w, r *netsim.Sock, want []byte, chunk int, pauseMs, p
 			}
 			if err == tcpip.ErrClosedForReceive {
 				res.eof = true
+				if !shutCalled.Load() && !aborted.Load() {
+					res.fail = evid.Failf("truncated:eof-before-shutdown", "%s: the reader saw a clean end of stream after %d bytes although the writer has not shut down its side (it is still writing: %d of %d bytes handed to Write so far)", name, len(got), func() int64 { mu.Lock(); defer mu.Unlock(); return offered }(), len(want))
+				}
 				break
 			}
 			if err != nil {
@@ -177,12 +195,12 @@ func runSub(c Sub) *evid.Failure {
 	var ab, ba dirResult
 	var wg sync.WaitGroup
 	dl := 60 * time.Second
-	transfer("A->B", p.C, p.S, wantAB, c.WChunkA, c.PauseBms, c.PauseEvery, dl, &ab, &wg)
-	transfer("B->A", p.S, p.C, wantBA, c.WChunkB, c.PauseAms, c.PauseEvery, dl, &ba, &wg)
+	var aborted atomic.Bool
+	transfer("A->B", p.C, p.S, wantAB, c.WChunkA, c.PauseBms, c.PauseEvery, dl, &ab, &wg, c.ZeroW, &aborted)
+	transfer("B->A", p.S, p.C, wantBA, c.WChunkB, c.PauseAms, c.PauseEvery, dl, &ba, &wg, c.ZeroW, &aborted)
 	// Watchdog: C01 is a safety property, so a connection that went quiet
 	// (e.g. finding F3: no persist timer) is aborted and counted, not waited for.
 	done := make(chan struct{})
-	aborted := false
 	go func() {
 		for {
 			select {
@@ -191,7 +209,7 @@ func runSub(c Sub) *evid.Failure {
 			case <-time.After(250 * time.Millisecond):
 			}
 			if p.W.SilentFor() > 8*time.Second && !p.W.PendingFaults() {
-				aborted = true
+				aborted.Store(true)
 				p.C.EP.Close()
 				p.S.EP.Close()
 				return
@@ -207,7 +225,7 @@ func runSub(c Sub) *evid.Failure {
 		}
 	}
 	clean := func(r *dirResult) bool { return r.werr == "" && r.rerr == "" && !r.stalled }
-	if aborted {
+	if aborted.Load() {
 		evid.Label("incomplete:wire-quiet-8s")
 	} else if clean(&ab) && clean(&ba) {
 		if !ab.eof || ab.got != len(wantAB) {
@@ -336,6 +354,7 @@ func genSub(rt *rapid.T) Sub {
 	c.PauseBms = rapid.SampledFrom([]int{0, 0, 1, 5, 30}).Draw(rt, "pause_b")
 	c.PauseAms = rapid.SampledFrom([]int{0, 0, 1, 5}).Draw(rt, "pause_a")
 	c.DataSeed = rapid.Uint64().Draw(rt, "data_seed")
+	c.ZeroW = rapid.SampledFrom([]int{0, 0, 0, 1, 2, 5}).Draw(rt, "zero_w")
 	// ISS placement (C14's scenario units force a wrap-adjacent placement)
 	lo := 0
 	if forceWrap {
